@@ -1,9 +1,42 @@
+_SYM = "bounded symbolic execution of the real flodym code on z3 real terms in numpy object arrays; "
 CHECKS = {
-    "C01": dict(
-        technique="bounded symbolic execution of FlodymArray operators on z3 real terms (object arrays); z3 decides per-entry label-oracle equalities",
-        text="For every enumerated operand configuration (ordered dimension subsets, lengths, operator form) the solver shows for ALL real entry "
-             "values that each result entry equals the by-label oracle; configurations are bounded enumeration, values are decided, not sampled.",
-        ref="DESIGN.md section 4 C01"),
+    "C01": dict(technique=_SYM + "z3 decides per-entry by-label oracle equalities for every operator form",
+                text="For every enumerated operand configuration (ordered dimension subsets incl. 0-dim, lengths, 22 operator forms) z3 shows for ALL real entry values "
+                     "that each result entry equals the by-label oracle written from the property text; configurations are bounded enumeration, values are decided, not sampled.",
+                ref="DESIGN.md section 4 C01"),
+    "C03": dict(technique=_SYM + "time items, drivers and the whole survival table symbolic; z3 (nlsat, lemma chaining, purified quotients) decides the stock-step identity",
+                text="The time grid itself, all driver values and the whole survival table (any lifetime model) are symbolic; z3 proves the conservation identity per entry for "
+                     "every stock class and solver inside n<=4 (quick) / 6 (thorough), plus the five shipped lifetime classes with scipy kernels as uninterpreted functions.",
+                ref="DESIGN.md section 4 C03", note="scipy.linalg.solve_triangular enters by its documented contract; np.allclose (warning only) is nondeterministic."),
+    "C05": dict(technique=_SYM + "old target entries, sources and right-hand sides symbolic; frame condition and sum-by-label decided per entry",
+                text="One assignment from an arbitrary target state (all old entries symbolic) covers histories of any length over the enumerated key/source forms; "
+                     "explicit 2- and 3-step histories are compared with a last-writer-wins model.",
+                ref="DESIGN.md section 4 C05"),
+    "C06": dict(technique=_SYM + "identical-symbol placement for every selector tuple and key spelling; error keys must raise on every path",
+                text="Every combination of per-dimension selector kinds (none/item/ordered subset Dimension/list) and key spellings inside the bound is executed on symbolic "
+                     "entries; each result entry must be the identical input symbol; items_where forks are solver-checked per entry.",
+                ref="DESIGN.md section 4 C06"),
+    "C07": dict(technique=_SYM + "linear marginal-sum identities and bilinear share identities decided by z3",
+                text="Marginal sums, prefix sums, casts and shares are compared with by-label oracles for all values; shares use nonlinear queries under total != 0.",
+                ref="DESIGN.md section 4 C07"),
+    "C08": dict(technique=_SYM + "scipy kernels as uninterpreted functions: congruence + linear arithmetic on the ages; ground range/monotonicity axioms; exact rational checks of the 10 quadrature rules; QF_NRA lemmas for the parameter transforms",
+                text="Data flow from time grid, parameters (scalar / arrays in any dimension order / time-varying) and quadrature rule into the distribution is decided for all "
+                     "grids and parameter values; validity of the table follows from the kernels' range/monotonicity axioms; scipy's kernels themselves are trusted.",
+                ref="DESIGN.md section 4 C08", note="scipy.stats sf kernels are trusted; float rounding of node mapping and ages is outside the claim."),
+    "C09": dict(technique=_SYM + "cohort identities over symbolic grid, drivers and survival table",
+                text="As C03, for the cohort tables: sums over cohorts, zero upper triangle, inflow x dt x survival, monotone cohorts under inflow>=0, per-cohort conservation.",
+                ref="DESIGN.md section 4 C09"),
+    "C10": dict(technique=_SYM + "inverse and solver-agreement identities with purified quotients and time-ordered lemma chaining",
+                text="Round trips inflow->stock->inflow and stock->inflow->stock and manual-vs-lapack agreement are proved per entry for symbolic grids/tables with diagonal >= 1/20.",
+                ref="DESIGN.md section 4 C10", note="LAPACK is trusted under scipy's documented contract (stub)."),
+    "C16": dict(technique=_SYM + "relational (2-safety) obligations over pairs/triples of symbolic runs",
+                text="Causality, superposition with symbolic alpha/beta, label independence, calendar-shift invariance (also through the real lifetime classes with UF kernels) and "
+                     "impulse response are universally quantified statements decided per entry.",
+                ref="DESIGN.md section 4 C16", note="stock-driven superposition is bounded to n=3."),
+    "C17": dict(technique=_SYM + "all operation histories up to a bounded length compared term-by-term with a freshly built stock",
+                text="Every sequence over {set driver, set_prms, compute, read sf, read pdf} of bounded length on each stock class x lifetime class, plus a system compute() loop; "
+                     "a stale table shows up as terms over the old parameter symbols.",
+                ref="DESIGN.md section 4 C17"),
 }
 NOT_APPLICABLE = {
     "C18": "building a system is pure assembly through pydantic-core validation and compiled file parsers; every input that could be symbolic "
